@@ -99,6 +99,11 @@ M = [
     ("C03", "cors-no-snap", "black_it/samplers/cors.py", "        return digitize_data(new_box_batch, search_space.param_grid)", "        return new_box_batch"),
     ("C03", "sur-rows", "black_it/samplers/surrogate.py", "candidates[sorting_indices][:batch_size]", "candidates[sorting_indices][: max(batch_size, 2)]"),
     ("C03", "uniform-range", "black_it/samplers/random_uniform.py", "candidates[:, i] = self.random_generator.choice(params, size=(batch_size,))", "candidates[:, i] = self.random_generator.choice(params, size=(batch_size,)) if i == 0 else params[0] + self.random_generator.random(size=(batch_size,)) * (params[-1] - params[0])"),
+    ("C18", "renumber", "black_it/calibrator.py", "        sampler_id = max(self.samplers_id_table.values()) + 1\n", "        sampler_id = len(self.samplers_id_table) if len(samplers) < 3 else max(self.samplers_id_table.values())\n"),
+    ("C18", "rebuild-on-set", "black_it/calibrator.py", "        self.scheduler._samplers = tuple(samplers)  # noqa: SLF001\n        self.update_samplers_id_table(samplers)", "        self.scheduler._samplers = tuple(samplers)  # noqa: SLF001\n        self.samplers_id_table = self._construct_samplers_id_table(samplers)"),
+    ("C18", "skip-dup-check", "black_it/calibrator.py", "            if sampler_name in self.samplers_id_table:\n                continue\n\n            self.samplers_id_table[sampler_name] = sampler_id\n            sampler_id = sampler_id + 1\n", "            if sampler_name in self.samplers_id_table and sampler_name != 'SamplerC':\n                continue\n\n            self.samplers_id_table[sampler_name] = sampler_id\n            sampler_id = sampler_id + 1\n"),
+    ("C18", "plot-iterates", "black_it/plot/plot_results.py", 'method_list = list(getattr(scheduler, "samplers", scheduler))', "method_list = scheduler"),
+    ("C18", "label-by-index", "black_it/calibrator.py", "[self.samplers_id_table[type(method).__name__]]\n                        * method.batch_size,", "[list(self.scheduler.samplers).index(method)]\n                        * method.batch_size,"),
     ("C15", "no-tolerance", "black_it/search_space.py", "parameters_bounds[1][i] + 0.0000001,", "parameters_bounds[1][i],"),
 ]
 
